@@ -588,7 +588,7 @@ func runStoreCase(prop string) func(t *testing.T, c StoreCase) (*h.Violation, h.
 var c11 = &h.Campaign[StoreCase]{
 	Prop: "C11", Sub: "history",
 	Rule: "rapid: store histories (1-30 events: read a handle, obtain a handle/watcher, lookup, service activates a new or an OLDER version, clock advance clustered around the expiry age, Refresh - optionally with per-request failures or a service change after its n-th request -, restart from the written cache with the same or another declared set) against a scripted service with injected clock and recording cache, expiry age in {0,10,100}s, start-up caches with undeclared entries stamped 0/past/future; after a Refresh that returned nil every known, non-expirable secret must be at a version that was active during that poll (judged from the cache document the poll wrote, or from the absence of a write), after a failed one nothing may have moved; non-trivial = a successful poll in a history that also has an activation backwards, an injected failure, a change during a poll, or a stale-but-pinned undeclared secret; distinct by history",
-	Quick: 10000, Thorough: 400000,
+	Quick: 10000, Thorough: 2000000,
 	Gen:   func(rt *rapid.T) StoreCase { return genStoreCase(rt, "C11") },
 	Run:   runStoreCase("C11"),
 }
@@ -596,7 +596,7 @@ var c11 = &h.Campaign[StoreCase]{
 var c19 = &h.Campaign[StoreCase]{
 	Prop: "C19", Sub: "history",
 	Rule: "rapid: the same store histories as C11 (without injected poll failures), judged by the expiry rules: a name may vanish from the cache document only at a poll and only if undeclared AND an age is set AND now-lastAccess > age AND no handle/watcher was handed out by this process; every document must carry the model's last-access stamps (reads refresh them; they survive restart because the model is reloaded from the last document actually written); non-trivial = a history in which an expiration happened and some secret was read/pinned; distinct by history",
-	Quick: 10000, Thorough: 400000,
+	Quick: 10000, Thorough: 2000000,
 	Gen:   func(rt *rapid.T) StoreCase { return genStoreCase(rt, "C19") },
 	Run:   runStoreCase("C19"),
 }
